@@ -170,13 +170,7 @@ func ruleC09ContentWrapped(c *Ctx) {
 				continue
 			}
 			// variable receiving result 0
-			var tw types.Object
-			walkOwn(f.Body(), func(nd ast.Node) {
-				as, ok := nd.(*ast.AssignStmt)
-				if ok && len(as.Rhs) == 1 && ast.Unparen(as.Rhs[0]) == ast.Expr(cs.Call) {
-					tw = objOfIdent(info, as.Lhs[0])
-				}
-			})
+			tw := tapeWriterVar(f, cs.Call, 0)
 			if tw == nil {
 				c.undecided(rule, f, "tar writer", cs.Call.Pos(), "NewTapeWriter result is not bound to a variable")
 				continue
